@@ -5,7 +5,7 @@ regenerated requirement tables, AARE paths, names) — see `valid_class` for the
 unchanged code is known not to round-trip.  Wire form shared with rules.py."""
 import rules as R
 
-SEG = ['a', 'b', 'foo', 'bar', 'x1', 'lib', 'share', '.cache', 'foo-bar', 'a.b', 'Foo', 'X11', 'v2.0']
+SEG = ['a', 'b', 'foo', 'bar', 'x1', 'lib', 'share', '.cache', 'foo-bar', 'a.b', 'Foo', 'X11', 'v2.0', 'g++', 'libstdc++.so.6', 'k=v']
 VARS = ['@{bin}', '@{lib}', '@{HOME}', '@{run}', '@{PROC}', '@{sys}', '@{user_config_dirs}', '@{etc_ro}', '@{MOUNTS}']
 ROOTS = ['/usr', '/etc', '/var', '/tmp', '/dev', '/opt', '/home', '']
 GLOBS = ['*', '**', '?', '[0-9]', '[^.]', '[a-f]*', '{,.}', '{a,b}', '{a,b{c,d}}', '@{int}', '@{hex}', '{,/}']
@@ -198,23 +198,34 @@ def known_class(x):
     """name of the known round-trip class a valid rule falls in, or None"""
     k = x['kind']
     f = x['f']
+    if x['comment'].endswith('}'):
+        return 'K_paragraphEndsBrace'      # (as the last line of a paragraph)
     if x['at'] == 'allow':
         return 'K_allow'
+    if any(isinstance(v, str) and '=' in v for v in f) and not (k == 'file' and not x['audit'] and x['at'] != 'deny'):
+        # a value holding `=` is read as key=value unless the line starts with the path itself (or `owner`)
+        return 'K_equalsInValue'
     if k == 'unix' and (f[5] or f[6]):
         return 'K_unixAttrOpt'
     if x['nnp']:
         return 'K_noNewPrivs'
+    if (x['fi'] or x['opt']) and not x['comment']:
+        return 'K_markerEmptyComment'
+    if k == 'include' and f[2] and ' ' in f[1]:
+        return 'K_includeSpaceMagic'
     if k == 'mqueue' and not f[3]:
         return 'K_mqueueNoName'
     has_c = bool(x['comment'] or x['nnp'] or x['fi'] or x['opt'])
     if has_c and k not in ('comment', 'include'):
+        n = len(f)
         bare = {
-            'capability': not f[0], 'network': not f[3], 'mount': not (f[0] or f[1] or f[2] or f[3]),
-            'umount': not (f[0] or f[1] or f[2]), 'remount': not (f[0] or f[1] or f[2]),
-            'pivot_root': not (f[0] or f[1] or f[2]), 'change_profile': not (f[0] or f[1] or f[2]),
-            'io_uring': not (f[0] or f[1]), 'signal': not (f[0] or f[1] or f[2]), 'ptrace': not (f[0] or f[1]),
-            'unix': not any(f[:5] + f[7:]), 'dbus': False, 'userns': True, 'all': True, 'mqueue': False,
-        }.get(k, False)
+            'capability': lambda: not f[0], 'network': lambda: not f[3], 'mount': lambda: not (f[0] or f[1] or f[2] or f[3]),
+            'umount': lambda: not (f[0] or f[1] or f[2]), 'remount': lambda: not (f[0] or f[1] or f[2]),
+            'pivot_root': lambda: not (f[0] or f[1] or f[2]), 'change_profile': lambda: not (f[1] or f[2]),
+            'dbus': lambda: not any(f),
+            'io_uring': lambda: not (f[0] or f[1]), 'signal': lambda: not (f[0] or f[1] or f[2]), 'ptrace': lambda: not (f[0] or f[1]),
+            'unix': lambda: not any(f[:5] + f[7:]), 'userns': lambda: True, 'all': lambda: True,
+        }.get(k, lambda: False)()
         if bare:
             return 'K_commentBareKeyword'
     return None
